@@ -495,9 +495,28 @@ def run(ctx):
                 if S.ref_encode(schemas, c, val, "lib") or not any(val):
                     record(c, "lib", "decl", val, "random")
         for c in rx_idx:
+            fnames = [f["name"] for f in schemas[c - 1]["fields"]]
+            is_sig = schemas[c - 1]["name"].endswith("ble.structs.Characteristic") and {"type", "instance_id", "properties"} <= set(fnames)
             for _ in range(per_class):
-                record(c, "acc", rng.choice(["decl", "rev", "rot"]), _rand_struct(rng, schemas, c, "acc", depth=ctx.pick(3, 7)),
-                       "random accessory message")
+                val = _rand_struct(rng, schemas, c, "acc", depth=ctx.pick(3, 7))
+                if is_sig:      # a characteristic signature always carries type, iid and properties
+                    for nm, w in (("type", 16), ("instance_id", 2), ("properties", 2)):
+                        if not val[fnames.index(nm)]:
+                            val[fnames.index(nm)] = [[rng.randrange(256) for _ in range(w)]]
+                    val[fnames.index("presentation_format")] = [[rng.choice([1, 4, 6, 8, 10, 16, 20, 25, 27]), 0, 0, 0x27, 1, 0, 0]]
+                    for nm in ("valid_range", "step_value"):     # their size depends on the format; not part of this check
+                        if nm in fnames:
+                            val[fnames.index(nm)] = []
+                dec = record(c, "acc", rng.choice(["decl", "rev", "rot"]), val, "random accessory message")
+                if dec is not None and is_sig:
+                    try:
+                        td = dec.to_dict()
+                        want = (f"{int.from_bytes(bytes(val[fnames.index('type')][0]), 'little'):X}", _u16(val[fnames.index("instance_id")][0]))
+                        if (td.get("type"), td.get("iid")) != want:
+                            rep.fail("to_dict() of the decoded characteristic signature shows another type / iid", {"c": c, "val": val},
+                                     f"{(td.get('type'), td.get('iid'))} != {want}")
+                    except Exception as ex:  # noqa: BLE001
+                        rep.fail("to_dict() of the decoded characteristic signature raised", {"c": c, "val": val}, f"{type(ex).__name__}: {ex}")
         # linked services: every byte value in every position of lists of 1..6 ids (BLE service signature + CoAP service)
         for cname in ("Service", "Pdu09Service"):
             if cname not in idx:
@@ -583,11 +602,12 @@ def run(ctx):
                     if not isinstance(tid, int):
                         raise MachineryError(f"trace validation failed without a record id: {res.violation['name']}")
                     rejected = [{"tid": tid, "enc": res.violation["name"] != "EncoderConforms",
-                                 "dec": res.violation["name"] != "DecoderConforms"}]
+                                 "dec": res.violation["name"] != "DecoderConforms", "rt": res.violation["name"] != "StructRoundTrip"}]
                 for v in rejected:
                     bad = recs[v["tid"] - 1]
                     what = " and ".join(w for w, ok in (("wire image differs from the specification's", v["enc"]),
-                                                        ("decoded value differs from the specification's", v["dec"])) if not ok)
+                                                        ("decoded value differs from the specification's", v["dec"]),
+                                                        ("the specification's own round trip fails for this class", v.get("rt", True))) if not ok)
                     rep.fail(f"recorded run rejected by TlvStruct_Trace ({what})",
                              {"c": bad["c"], "class": schemas[bad["c"] - 1]["name"], "mode": bad["mode"], "pol": bad["pol"],
                               "val": bad["val"], "wire": bytes(bad["enc"]), "dec": bad["dec"]},
